@@ -784,4 +784,399 @@ theorem items_rt : (its : Items) → ∀ (m : Mode) (cg : Text) (st st' : SeqSt)
         simp [Items.normFlat, valueNorm, a1.1, Items.flatten, flattenGC, spacesIf, List.append_assoc]
 end
 
+def File.cf (f : File) : Bool := f.items.cf
+
+theorem file_shape (f : File) (hwf : f.wf = true) (hcf : f.cf = true) :
+    ∃ g c, f.items = .elem g c .nil ∧ c.wf = true ∧ c.cf = true := by
+  simp only [File.wf, Bool.and_eq_true, decide_eq_true_eq] at hwf
+  simp only [File.cf] at hcf
+  obtain ⟨⟨hw, hcount⟩, _⟩ := hwf
+  cases hi : f.items with
+  | nil => rw [hi] at hcount; simp [Items.countElems] at hcount
+  | cmt _ _ _ => rw [hi] at hcf; simp [Items.cf] at hcf
+  | bind _ _ _ _ _ _ _ _ _ _ => rw [hi] at hw; simp [Items.wf] at hw
+  | elem g c rest =>
+    rw [hi] at hw hcf hcount
+    simp only [Items.wf, Bool.and_eq_true] at hw
+    simp only [Items.cf, Bool.and_eq_true] at hcf
+    simp only [Items.countElems] at hcount
+    cases rest with
+    | nil => exact ⟨g, c, rfl, hw.1.2, hcf.1⟩
+    | cmt _ _ _ => simp [Items.cf] at hcf
+    | bind _ _ _ _ _ _ _ _ _ _ => simp [Items.wf] at hw
+    | elem g' c' r' => simp [Items.countElems] at hcount
+
+theorem setBefore_nil_of {e : Expr} (h : e.before = []) : e.setBefore [] = e := by
+  cases e <;> simp_all [Expr.setBefore, Expr.before]
+
+/-- THE ROUND TRIP OF A COMMENT-FREE FILE IS THE TREE NORMALISER -/
+theorem file_rt (f : File) (hwf : f.wf = true) (hcf : f.cf = true) : f.roundtrip = .ok f.norm.flatten := by
+  obtain ⟨g, c, hi, hcw, hcc⟩ := file_shape f hwf hcf
+  obtain ⟨e, hpe, heb, hea, _, hrt⟩ := cst_rt c hcw hcc
+  have hsol := norm_flatten_solid c 0 hcw
+  have hpg : pushGap ({} : SeqSt) g = [] := by simp [pushGap]
+  have hparse : f.parse = .ok { exprs := [e], trailing := appendGapTriviaOff [] f.endGap } := by
+    simp only [File.parse, hi, Items.parseSeq, hpe, hpg, heb, List.append_nil, setBefore_nil_of heb]
+    simp [finishSeq]
+  have hreb : (rebuildAll [e] 0 false).flatten = (c.norm 0).flatten := by
+    simp [rebuildAll, hrt, spacesIf]
+  simp only [File.roundtrip, hparse, File.norm, hi, File.flatten, Items.flatten, List.nil_append, List.append_nil]
+  congr 1
+  unfold Src.rebuild
+  simp only [hreb]
+  have hne : ((c.norm 0).flatten).isEmpty = false := by
+    cases hx : (c.norm 0).flatten with
+    | nil => exact absurd hx hsol.1
+    | cons _ _ => rfl
+  rcases trailing_cases f.endGap with h | h | h
+  · have hnl : containsNL f.endGap = false := by
+      cases hc : containsNL f.endGap with
+      | false => rfl
+      | true => unfold appendGapTriviaOff at h; simp [hc] at h; split at h <;> simp at h
+    simp [h, hnl]
+  · have hnl : containsNL f.endGap = true := appendGap_ne_nil_NL (by rw [h]; simp)
+    have hbl : gapHasEmptyLineOffsets f.endGap = true := by
+      unfold appendGapTriviaOff at h; simp only [hnl, Bool.not_true, Bool.false_eq_true, if_false] at h
+      split at h
+      · assumption
+      · simp at h
+    simp [h, hnl, hbl, formatTrivia, formatTriviaGo, trimTrailingLayoutNewline, Trivia.isLayout, hne]
+  · have hnl : containsNL f.endGap = true := appendGap_ne_nil_NL (by rw [h]; simp)
+    have hbl : gapHasEmptyLineOffsets f.endGap = false := by
+      unfold appendGapTriviaOff at h; simp only [hnl, Bool.not_true, Bool.false_eq_true, if_false] at h
+      split at h
+      · simp at h
+      · rename_i hh; simpa using hh
+    simp [h, hnl, hbl, formatTrivia, formatTriviaGo, trimTrailingLayoutNewline, Trivia.isLayout, hsol.2]
+
+/-! ### the normaliser is idempotent -/
+
+theorem offsets_nlnl_spaces (k : Nat) : gapHasEmptyLineOffsets ('\n' :: '\n' :: spaces k) = true := by
+  rw [gapHasEmptyLineOffsets_eq_re, ← gapHasEmptyLine_eq_re]; exact gapHasEmptyLine_nlnl_spaces k
+theorem offsets_nl_spaces (k : Nat) : gapHasEmptyLineOffsets ('\n' :: spaces k) = false := by
+  rw [gapHasEmptyLineOffsets_eq_re, ← gapHasEmptyLine_eq_re]; exact gapHasEmptyLine_nl_spaces k
+
+theorem blank_vgap (g : Text) (k : Nat) : gapHasEmptyLineOffsets (vgap g k) = gapHasEmptyLineOffsets g := by
+  unfold vgap blankGap
+  cases h : gapHasEmptyLineOffsets g with
+  | true => simp only [if_true]; exact offsets_nlnl_spaces k
+  | false => simp only [Bool.false_eq_true, if_false, List.nil_append]; exact offsets_nl_spaces k
+
+theorem vgap_vgap (g : Text) (k k' : Nat) : vgap (vgap g k) k' = vgap g k' := by
+  unfold vgap blankGap; rw [show ('\n' :: (if gapHasEmptyLineOffsets g = true then ['\n'] else []) ++ spaces k) = vgap g k from rfl,
+    blank_vgap]
+
+theorem containsNL_vgap (g : Text) (k : Nat) : containsNL (vgap g k) = true := by
+  simp [vgap, containsNL]
+
+theorem indentFromGap_vgap (g : Text) (k : Nat) : indentFromGap (vgap g k) = k := by
+  unfold vgap blankGap
+  split
+  · exact indentFromGap_nlnl_spaces k
+  · exact indentFromGap_nl_spaces k
+
+theorem isGap_vgap (g : Text) (k : Nat) : isGap (vgap g k) = true := by
+  unfold vgap blankGap isGap
+  have hs : (spaces k).all isWsChar = true := by
+    apply List.all_eq_true.mpr; intro c hc; rw [mem_spaces hc]; rfl
+  split <;> simp [isWsChar, hs]
+
+theorem isNil_normML : ∀ (its : Items) (j : Nat), its.cf = true → (its.normML j).isNil = its.isNil
+  | .nil, _, _ => rfl
+  | .cmt .., _, h => by simp [Items.cf] at h
+  | .elem .., _, _ => rfl
+  | .bind g n c1 g1 c2 g2 v c3 g3 rest, j, _ => by simp only [Items.normML]; split <;> rfl
+
+theorem isNil_normFlat : ∀ (its : Items) (j : Nat), its.cf = true → (its.normFlat j).isNil = its.isNil
+  | .nil, _, _ => rfl
+  | .cmt .., _, h => by simp [Items.cf] at h
+  | .elem .., _, _ => rfl
+  | .bind .., _, _ => rfl
+
+theorem containsNL_cons_ne {c : Char} (hc : c ≠ '\n') (s : Text) : containsNL (c :: s) = containsNL s := by
+  rw [containsNL_cons]; simp [hc]
+
+mutual
+theorem norm_noNL : (c : Cst) → c.cf = true → containsNL c.flatten = false → ∀ (i : Nat),
+    containsNL (c.norm i).flatten = false
+  | .leaf _ _, _, h, _ => h
+  | .list its cg, hcf, h, i => by
+    simp only [Cst.cf] at hcf
+    have h1 : containsNL (its.flatten ++ cg) = false := by
+      have : containsNL (['['] ++ ((its.flatten ++ cg) ++ [']'])) = false := by simpa [Cst.flatten] using h
+      exact (containsNL_append_false (containsNL_append_false this).2).1
+    have hcg := (containsNL_append_false h1).2
+    simp only [Cst.norm]
+    split
+    · simp [emptyLineOffsets_false hcg, Cst.flatten, Items.flatten, containsNL]
+    · have ih := items_noNL its hcf (containsNL_append_false h1).1 i
+      simp only [h1, Bool.false_eq_true, if_false, Cst.flatten]
+      rw [show ('[' :: (its.normFlat i).flatten ++ [' '] ++ [']']) = ['['] ++ ((its.normFlat i).flatten ++ [' ', ']']) from by simp,
+        containsNL_append, containsNL_append, ih]
+      rfl
+  | .set r rg its cg, hcf, h, i => by
+    simp only [Cst.cf] at hcf
+    have h1 : containsNL ((if r then rg else []) ++ its.flatten ++ cg) = false := by
+      cases r
+      · have : containsNL (['{'] ++ ((its.flatten ++ cg) ++ ['}'])) = false := by simpa [Cst.flatten] using h
+        simpa using (containsNL_append_false (containsNL_append_false this).2).1
+      · have : containsNL (['r', 'e', 'c'] ++ (rg ++ (['{'] ++ ((its.flatten ++ cg) ++ ['}'])))) = false := by
+          simpa [Cst.flatten, List.append_assoc] using h
+        have a1 := (containsNL_append_false this).2
+        have a2 := containsNL_append_false a1
+        have a3 := (containsNL_append_false (containsNL_append_false a2.2).2).1
+        simp only [if_true, List.append_assoc, containsNL_append, a2.1, Bool.false_or]
+        simpa [containsNL_append] using a3
+    have hcg := (containsNL_append_false h1).2
+    have hits := (containsNL_append_false (containsNL_append_false h1).1).2
+    simp only [Cst.norm]
+    split
+    · cases r <;> simp [emptyLineOffsets_false hcg, Cst.flatten, Items.flatten, containsNL]
+    · have ih := items_noNL its hcf hits (i + 2)
+      simp only [h1, Bool.false_eq_true, if_false, Cst.flatten]
+      cases r
+      · simp only [Bool.false_eq_true, if_false, List.nil_append]
+        rw [show ('{' :: (its.normFlat (i + 2)).flatten ++ [' '] ++ ['}']) = ['{'] ++ ((its.normFlat (i + 2)).flatten ++ [' ', '}']) from by simp,
+          containsNL_append, containsNL_append, ih]
+        rfl
+      · simp only [if_true]
+        rw [show (['r', 'e', 'c'] ++ [' '] ++ '{' :: (its.normFlat (i + 2)).flatten ++ [' '] ++ ['}']) =
+          ['r', 'e', 'c', ' ', '{'] ++ ((its.normFlat (i + 2)).flatten ++ [' ', '}']) from by simp,
+          containsNL_append, containsNL_append, ih]
+        rfl
+theorem items_noNL : (its : Items) → its.cf = true → containsNL its.flatten = false → ∀ (j : Nat),
+    containsNL (its.normFlat j).flatten = false
+  | .nil, _, _, _ => rfl
+  | .cmt .., h, _, _ => by simp [Items.cf] at h
+  | .elem g c rest, hcf, h, j => by
+    simp only [Items.cf, Bool.and_eq_true] at hcf
+    simp only [Items.flatten] at h
+    have h1 := containsNL_append_false h
+    have h2 := containsNL_append_false h1.1
+    simp only [Items.normFlat, Items.flatten]
+    rw [containsNL_append, containsNL_append, norm_noNL c hcf.1 h2.2 j, items_noNL rest hcf.2 h1.2 j]
+    rfl
+  | .bind g n c1 g1 c2 g2 v c3 g3 rest, hcf, h, j => by
+    simp only [Items.cf, Bool.and_eq_true] at hcf
+    have hn' : containsNL (g ++ (n ++ ((flattenGC c1 ++ g1) ++ (['='] ++ ((flattenGC c2 ++ g2) ++ (v.flatten ++
+        ((flattenGC c3 ++ g3) ++ ([';'] ++ rest.flatten)))))))) = false := by
+      simpa [Items.flatten, List.append_assoc] using h
+    have a0 := containsNL_append_false hn'
+    have a1 := containsNL_append_false a0.2
+    have a2 := containsNL_append_false (containsNL_append_false (containsNL_append_false a1.2).2).2
+    have a2v := containsNL_append_false a2.2
+    have a3 := (containsNL_append_false (containsNL_append_false a2v.2).2).2
+    have ihv := norm_noNL v hcf.1.2 a2v.1 j
+    have ihr := items_noNL rest hcf.2 a3 j
+    simp only [Items.normFlat, Items.flatten, flattenGC, List.flatMap_nil, List.append_nil, List.nil_append]
+    rw [show ([' '] ++ n ++ [' '] ++ ['='] ++ [' '] ++ (v.norm j).flatten ++ ';' :: (rest.normFlat j).flatten) =
+      [' '] ++ (n ++ ([' ', '=', ' '] ++ ((v.norm j).flatten ++ ([';'] ++ (rest.normFlat j).flatten)))) from by simp]
+    simp only [containsNL_append, a1.1, ihv, ihr]
+    rfl
+end
+
+theorem containsNL_append_vgap (a g : Text) (k : Nat) : containsNL (a ++ vgap g k) = true := by
+  rw [containsNL_append, containsNL_vgap]; simp
+
+theorem offsets_space : gapHasEmptyLineOffsets [' '] = false := by decide
+
+mutual
+theorem norm_idem : (c : Cst) → c.cf = true → ∀ (i : Nat), (c.norm i).norm i = c.norm i
+  | .leaf _ _, _, _ => rfl
+  | .list its cg, hcf, i => by
+    simp only [Cst.cf] at hcf
+    simp only [Cst.norm]
+    cases hnil : its.isNil with
+    | true =>
+      simp only [if_true]
+      by_cases hb : gapHasEmptyLineOffsets cg = true
+      · simp [hb, Cst.norm, Items.isNil, blank_vgap, vgap_vgap]
+      · have hb' : gapHasEmptyLineOffsets cg = false := by simpa using hb
+        simp [hb', Cst.norm, Items.isNil, offsets_space]
+    | false =>
+      simp only [Bool.false_eq_true, if_false]
+      by_cases hml : containsNL (its.flatten ++ cg) = true
+      · simp only [hml, if_true, Cst.norm, isNil_normML its (i + 2) hcf, hnil, Bool.false_eq_true, if_false,
+          containsNL_append_vgap, normML_idem its hcf (i + 2), vgap_vgap]
+      · have hml' : containsNL (its.flatten ++ cg) = false := by simpa using hml
+        have hits := (containsNL_append_false hml').1
+        have hno : containsNL ((its.normFlat i).flatten ++ [' ']) = false := by
+          rw [containsNL_append, items_noNL its hcf hits i]; rfl
+        simp only [hml', Bool.false_eq_true, if_false, Cst.norm, isNil_normFlat its i hcf, hnil, hno,
+          normFlat_idem its hcf hits i]
+  | .set r rg its cg, hcf, i => by
+    simp only [Cst.cf] at hcf
+    simp only [Cst.norm]
+    cases hnil : its.isNil with
+    | true =>
+      simp only [if_true]
+      by_cases hb : gapHasEmptyLineOffsets cg = true
+      · cases r <;> simp [hb, Cst.norm, Items.isNil, blank_vgap, vgap_vgap]
+      · have hb' : gapHasEmptyLineOffsets cg = false := by simpa using hb
+        cases r <;> simp [hb', Cst.norm, Items.isNil, offsets_space]
+    | false =>
+      simp only [Bool.false_eq_true, if_false]
+      by_cases hml : containsNL ((if r then rg else []) ++ its.flatten ++ cg) = true
+      · simp only [hml, if_true, Cst.norm, isNil_normML its (i + 2) hcf, hnil, Bool.false_eq_true, if_false,
+          containsNL_append_vgap, normML_idem its hcf (i + 2), vgap_vgap]
+      · have hml' : containsNL ((if r then rg else []) ++ its.flatten ++ cg) = false := by simpa using hml
+        have hits := (containsNL_append_false (containsNL_append_false hml').1).2
+        have hno : containsNL ((if r = true then (if r = true then [' '] else []) else []) ++
+            (its.normFlat (i + 2)).flatten ++ [' ']) = false := by
+          rw [containsNL_append, containsNL_append, items_noNL its hcf hits (i + 2)]
+          cases r <;> rfl
+        simp only [hml', Bool.false_eq_true, if_false, Cst.norm, isNil_normFlat its (i + 2) hcf, hnil, hno,
+          normFlat_idem its hcf hits (i + 2)]
+theorem normML_idem : (its : Items) → its.cf = true → ∀ (j : Nat), (its.normML j).normML j = its.normML j
+  | .nil, _, _ => rfl
+  | .cmt .., h, _ => by simp [Items.cf] at h
+  | .elem g c rest, hcf, j => by
+    simp only [Items.cf, Bool.and_eq_true] at hcf
+    simp only [Items.normML, vgap_vgap, norm_idem c hcf.1 j, normML_idem rest hcf.2 j]
+  | .bind g n c1 g1 c2 g2 v c3 g3 rest, hcf, j => by
+    simp only [Items.cf, Bool.and_eq_true] at hcf
+    simp only [Items.normML]
+    split
+    · simp only [Items.normML, containsNL_vgap, if_true, vgap_vgap, indentFromGap_vgap,
+        norm_idem v hcf.1.2 (indentFromGap g2), normML_idem rest hcf.2 j]
+    · simp only [Items.normML, show containsNL [' '] = false from rfl, Bool.false_eq_true, if_false, vgap_vgap,
+        norm_idem v hcf.1.2 j, normML_idem rest hcf.2 j]
+theorem normFlat_idem : (its : Items) → its.cf = true → containsNL its.flatten = false → ∀ (j : Nat),
+    (its.normFlat j).normFlat j = its.normFlat j
+  | .nil, _, _, _ => rfl
+  | .cmt .., h, _, _ => by simp [Items.cf] at h
+  | .elem g c rest, hcf, h, j => by
+    simp only [Items.cf, Bool.and_eq_true] at hcf
+    simp only [Items.flatten] at h
+    have h1 := containsNL_append_false h
+    simp only [Items.normFlat, norm_idem c hcf.1 j, normFlat_idem rest hcf.2 h1.2 j]
+  | .bind g n c1 g1 c2 g2 v c3 g3 rest, hcf, h, j => by
+    simp only [Items.cf, Bool.and_eq_true] at hcf
+    have hn' : containsNL (g ++ (n ++ ((flattenGC c1 ++ g1) ++ (['='] ++ ((flattenGC c2 ++ g2) ++ (v.flatten ++
+        ((flattenGC c3 ++ g3) ++ ([';'] ++ rest.flatten)))))))) = false := by
+      simpa [Items.flatten, List.append_assoc] using h
+    have a0 := containsNL_append_false hn'
+    have a1 := containsNL_append_false a0.2
+    have a2 := containsNL_append_false (containsNL_append_false (containsNL_append_false a1.2).2).2
+    have a2v := containsNL_append_false a2.2
+    have a3 := (containsNL_append_false (containsNL_append_false a2v.2).2).2
+    simp only [Items.normFlat, norm_idem v hcf.1.2 j, normFlat_idem rest hcf.2 a3 j]
+end
+
+theorem isGap_space : isGap [' '] = true := by decide
+theorem isGap_nil : isGap [] = true := by decide
+theorem gcOk_nil (g : Text) : gcOk [] g = true := rfl
+
+mutual
+theorem norm_wf : (c : Cst) → c.wf = true → c.cf = true → ∀ (i : Nat), (c.norm i).wf = true ∧ (c.norm i).cf = true
+  | .leaf k t, h, _, _ => ⟨h, rfl⟩
+  | .list its cg, hwf, hcf, i => by
+    simp only [Cst.wf, Bool.and_eq_true] at hwf
+    simp only [Cst.cf] at hcf
+    simp only [Cst.norm]
+    split
+    · split <;> simp [Cst.wf, Cst.cf, Items.wf, Items.cf, isGap_vgap, isGap_space]
+    · split
+      · have := normML_wf its .list cg hwf.1 hcf (i + 2) (vgap cg i)
+        simp [Cst.wf, Cst.cf, this.1, this.2, isGap_vgap]
+      · have := normFlat_wf its .list cg hwf.1 hcf i [' ']
+        simp [Cst.wf, Cst.cf, this.1, this.2, isGap_space]
+  | .set r rg its cg, hwf, hcf, i => by
+    simp only [Cst.wf, Bool.and_eq_true] at hwf
+    simp only [Cst.cf] at hcf
+    have hM := normML_wf its .set cg hwf.1.2 hcf (i + 2) (vgap cg i)
+    have hF := normFlat_wf its .set cg hwf.1.2 hcf (i + 2) [' ']
+    simp only [Cst.norm]
+    by_cases hnil : its.isNil = true
+    · simp only [hnil, if_true]
+      by_cases hb : gapHasEmptyLineOffsets cg = true
+      · cases r <;> simp [hb, Cst.wf, Cst.cf, Items.wf, Items.cf, isGap_vgap, isGap_space, isGap_nil]
+      · cases r <;> simp [hb, Cst.wf, Cst.cf, Items.wf, Items.cf, isGap_vgap, isGap_space, isGap_nil]
+    · simp only [hnil, Bool.false_eq_true, if_false]
+      by_cases hml : containsNL ((if r then rg else []) ++ its.flatten ++ cg) = true
+      · simp only [hml, if_true]
+        cases r <;> simp [Cst.wf, Cst.cf, hM.1, hM.2, isGap_vgap, isGap_space, isGap_nil]
+      · simp only [hml, Bool.false_eq_true, if_false]
+        cases r <;> simp [Cst.wf, Cst.cf, hF.1, hF.2, isGap_space, isGap_nil]
+theorem normML_wf : (its : Items) → ∀ (m : Mode) (cg : Text), its.wf m cg = true → its.cf = true → ∀ (j : Nat) (cg' : Text),
+    (its.normML j).wf m cg' = true ∧ (its.normML j).cf = true
+  | .nil, _, _, _, _, _, _ => ⟨rfl, rfl⟩
+  | .cmt .., _, _, _, h, _, _ => by simp [Items.cf] at h
+  | .elem g c rest, m, cg, hwf, hcf, j, cg' => by
+    simp only [Items.wf, Bool.and_eq_true] at hwf
+    simp only [Items.cf, Bool.and_eq_true] at hcf
+    have h1 := norm_wf c hwf.1.2 hcf.1 j
+    have h2 := normML_wf rest m cg hwf.2 hcf.2 j cg'
+    simp only [Items.normML, Items.wf, Items.cf, Bool.and_eq_true]
+    exact ⟨⟨⟨⟨hwf.1.1.1, isGap_vgap g j⟩, h1.1⟩, h2.1⟩, h1.2, h2.2⟩
+  | .bind g n c1 g1 c2 g2 v c3 g3 rest, m, cg, hwf, hcf, j, cg' => by
+    simp only [Items.wf, Bool.and_eq_true] at hwf
+    obtain ⟨⟨⟨⟨⟨⟨⟨⟨⟨⟨hm, _⟩, hn⟩, _⟩, _⟩, _⟩, _⟩, hv⟩, _⟩, _⟩, hrest⟩ := hwf
+    simp only [Items.cf, Bool.and_eq_true] at hcf
+    have h2 := normML_wf rest m cg hrest hcf.2 j cg'
+    simp only [Items.normML]
+    split
+    · have h1 := norm_wf v hv hcf.1.2 (indentFromGap g2)
+      simp [Items.wf, Items.cf, hm, hn, isGap_vgap, isGap_space, isGap_nil, gcOk_nil, h1.1, h1.2, h2.1, h2.2]
+    · have h1 := norm_wf v hv hcf.1.2 j
+      simp [Items.wf, Items.cf, hm, hn, isGap_vgap, isGap_space, isGap_nil, gcOk_nil, h1.1, h1.2, h2.1, h2.2]
+theorem normFlat_wf : (its : Items) → ∀ (m : Mode) (cg : Text), its.wf m cg = true → its.cf = true → ∀ (j : Nat) (cg' : Text),
+    (its.normFlat j).wf m cg' = true ∧ (its.normFlat j).cf = true
+  | .nil, _, _, _, _, _, _ => ⟨rfl, rfl⟩
+  | .cmt .., _, _, _, h, _, _ => by simp [Items.cf] at h
+  | .elem g c rest, m, cg, hwf, hcf, j, cg' => by
+    simp only [Items.wf, Bool.and_eq_true] at hwf
+    simp only [Items.cf, Bool.and_eq_true] at hcf
+    have h1 := norm_wf c hwf.1.2 hcf.1 j
+    have h2 := normFlat_wf rest m cg hwf.2 hcf.2 j cg'
+    simp only [Items.normFlat, Items.wf, Items.cf, Bool.and_eq_true]
+    exact ⟨⟨⟨⟨hwf.1.1.1, isGap_space⟩, h1.1⟩, h2.1⟩, h1.2, h2.2⟩
+  | .bind g n c1 g1 c2 g2 v c3 g3 rest, m, cg, hwf, hcf, j, cg' => by
+    simp only [Items.wf, Bool.and_eq_true] at hwf
+    obtain ⟨⟨⟨⟨⟨⟨⟨⟨⟨⟨hm, _⟩, hn⟩, _⟩, _⟩, _⟩, _⟩, hv⟩, _⟩, _⟩, hrest⟩ := hwf
+    simp only [Items.cf, Bool.and_eq_true] at hcf
+    have h1 := norm_wf v hv hcf.1.2 j
+    have h2 := normFlat_wf rest m cg hrest hcf.2 j cg'
+    simp [Items.normFlat, Items.wf, Items.cf, hm, hn, isGap_space, isGap_nil, gcOk_nil, h1.1, h1.2, h2.1, h2.2]
+end
+
+theorem file_norm_wf (f : File) (hwf : f.wf = true) (hcf : f.cf = true) :
+    f.norm.wf = true ∧ f.norm.cf = true ∧ f.norm.noLeadingWs = true := by
+  obtain ⟨g, c, hi, hcw, hcc⟩ := file_shape f hwf hcf
+  have h1 := norm_wf c hcw hcc 0
+  have hg : isGap (if !containsNL f.endGap then [] else if gapHasEmptyLineOffsets f.endGap then ['\n', '\n'] else ['\n']) = true := by
+    split
+    · rfl
+    · split <;> decide
+  simp only [File.norm, hi, File.wf, File.cf, File.noLeadingWs, Items.wf, Items.cf, Items.countElems, Items.firstGap,
+    h1.1, h1.2, hg]
+  decide
+
+theorem file_norm_idem (f : File) (hwf : f.wf = true) (hcf : f.cf = true) : f.norm.norm = f.norm := by
+  obtain ⟨g, c, hi, hcw, hcc⟩ := file_shape f hwf hcf
+  have hid := norm_idem c hcc 0
+  have hend : ∀ (e : Text), e = [] ∨ e = ['\n', '\n'] ∨ e = ['\n'] →
+      (if !containsNL e then [] else if gapHasEmptyLineOffsets e then ['\n', '\n'] else ['\n']) = e := by
+    intro e he
+    rcases he with h | h | h <;> subst h <;> decide
+  have hcase : (if !containsNL f.endGap then ([] : Text) else if gapHasEmptyLineOffsets f.endGap then ['\n', '\n'] else ['\n']) = [] ∨
+      (if !containsNL f.endGap then ([] : Text) else if gapHasEmptyLineOffsets f.endGap then ['\n', '\n'] else ['\n']) = ['\n', '\n'] ∨
+      (if !containsNL f.endGap then ([] : Text) else if gapHasEmptyLineOffsets f.endGap then ['\n', '\n'] else ['\n']) = ['\n'] := by
+    split
+    · exact Or.inl rfl
+    · split
+      · exact Or.inr (Or.inl rfl)
+      · exact Or.inr (Or.inr rfl)
+  simp only [File.norm, hi, hid, hend _ hcase]
+
+/-- FIXED POINT for comment-free files: the text the round trip writes is the flattening of a
+    well-formed comment-free tree (`File.norm f`, the tree tree-sitter returns for it — compared
+    with the real tree on every sample), and the round trip of that tree writes the same text. -/
+theorem file_fixed_point (f : File) (hwf : f.wf = true) (hcf : f.cf = true) :
+    f.norm.wf = true ∧ f.norm.cf = true ∧ f.norm.noLeadingWs = true ∧
+    f.roundtrip = .ok f.norm.flatten ∧ f.norm.roundtrip = .ok f.norm.flatten := by
+  have h1 := file_norm_wf f hwf hcf
+  refine ⟨h1.1, h1.2.1, h1.2.2, file_rt f hwf hcf, ?_⟩
+  rw [file_rt f.norm h1.1 h1.2.1, file_norm_idem f hwf hcf]
+
 end Nima.Frag
